@@ -26,7 +26,7 @@ import (
 // CheckTx / DeliverTx, a reference round model stepped alongside, outcome classification from state deltas.
 func init() {
 	Register("oracle", runOracle)
-	rule := "histories of 50-90 blocks (seeded PRNG) with 3-6 validators of skewed power (e.g. 34/33/33, 67/33, 2/1/1/1/1), 2-3 token feeders with different intervals/start/end blocks, MaxNonce in {1,2,3}; per block a mix of honest, conflicting, duplicate, late/early, wrong-base-block, wrong-nonce, wrong-decimal, future-timestamp, unknown-feeder, oversized, multi-message, non-validator, wrong-key and forged-signature price transactions (DeliverTx, and CheckTx/ReCheckTx), plus stake changes that alter the validator set mid-window. "
+	rule := "histories of 50-90 blocks (seeded PRNG) with 3-6 validators of skewed power (e.g. 34/33/33, 67/33, 2/1/1/1/1), 2-3 token feeders with different intervals/start/end blocks, MaxNonce in {1,2,3}; per block a mix of honest, conflicting, duplicate, late/early, wrong-base-block, wrong-nonce, wrong-decimal, future-timestamp, unknown-feeder, oversized, multi-message, non-validator, wrong-key and forged-signature price transactions (DeliverTx, and CheckTx/ReCheckTx), plus stake changes that alter the validator set mid-window; in two thirds of the histories (test-network chain id) also parameter updates: end blocks for running feeders (outside every window / inside a window / on a round boundary / in the past) and new feeders that resume an ended token (right, repeated or skipped round id). "
 	RegisterPlan(Plan{Prop: "C12", Engine: "oracle", Quick: 96, Thorough: 3000, Level: "exploration", MinCases: 8,
 		Rule: rule + "After every block the stored round ids are compared with a reference round model (one close per round, no gap/repeat, retention bound); every finalisation is checked against the monitor's own tally of counted submissions (reporting power and agreeing power strictly above 2/3, stored price = agreed value). Distinct = ⟨close kind (final / window expiry / forced seal / feeder end), power split class, #submitters, conflicting?⟩."})
 	RegisterPlan(Plan{Prop: "C13", Engine: "oracle", Quick: 96, Thorough: 3000, Level: "exploration", MinCases: 8,
